@@ -63,6 +63,21 @@ CHECKS = {
                 "non-integral float truncates (documented, not judged).",
         "technique": "Lean 4 proof over the typed-update model + differential correspondence with Profile.update and the real CLI route",
     },
+    "C19": {
+        "text": "Machine-checked theorems about the Lean model of the no-data guards (Sample.__init__ neutral-region checks, genotype()'s "
+                "average-depth guard, whose shape is regenerated from the source): for alignment input an average depth below the minimum - in "
+                "particular a locus without reads - never proceeds to calling, whether the structure is estimated or user-supplied; an empty neutral "
+                "region is rejected; 'proceed' implies adequate data. Tie: simulated error-free BAMs (normal / no locus reads / depth 0-1 / empty or "
+                "thin neutral region / pseudogene-only) x (profile from BAM | user-supplied structure) x (simple output) run through the real "
+                "genotype(); outcome class compared with the model on inputs measured from the real Sample/Profile objects; property oracle on "
+                "the outcome (error, empty simple line, pseudogene-only => whole-gene deletion). A genuine defect (guard skipped for user-supplied "
+                "structures) was repaired by a fix: commit; a minor one (missing simple line for errors raised while loading the sample) is a "
+                "known finding.",
+        "design_ref": "DESIGN.md section 4 (C19), 5",
+        "note": "The pseudogene-only => deletion clause is decided by the correspondence run (real CN stage on simulated depth) and C03's "
+                "theorems, not by a dedicated optimality theorem. pysam/indelpost trusted.",
+        "technique": "Lean 4 proof over the guard decision table (shape regenerated from source) + simulated-BAM correspondence through genotype()",
+    },
 }
 
 NOT_YET = "check not built yet (work in progress; see DESIGN.md section 9 build order)"
